@@ -128,12 +128,14 @@ class Universe(object):
             try:
                 with kr.key(ident) as k:
                     got = self.by_fpr_half.get((str(k.fingerprint), k.is_public), 'unknown')
+            except KeyError:
+                got = 'none'                       # the documented way of selecting nothing
             except Exception:
-                got = 'none'
+                got = 'error'                      # anything else is neither a key nor "nothing"
             sel.append(got)
             if a in self.special:
                 # membership of a message / signature is defined through selection
-                has.append(got != 'none')
+                has.append(got not in ('none', 'error'))
             else:
                 try:
                     has.append(bool(a in kr))
